@@ -179,13 +179,27 @@ def draw_decks(case):
             cel.rho = form
         return deck
     makers.append(density_variants)
+    from .c13 import upstream_decks
+    ups = [d for d in upstream_decks() if len(d[1]) < 4000]
+
+    class _Raw:
+        def __init__(self, text, cli):
+            self.text = text
+            self.cli = cli
+    raw_decks = []
+
+    def upstream():
+        name, text, opts = rng.choice(ups)
+        return _Raw(text, list(opts))
+    makers.append(upstream)
     decks = []
     forced = [density_variants]
     for _ in range(rng.randint(3, 6)):
         deck = (forced.pop() if forced else rng.choice(makers))()
         opts = list(deck.cli) + (c08.random_options(rng)
                                  if rng.random() < 0.6 else [])
-        decks.append((M.render(deck), opts, 'valid'))
+        text = deck.text if isinstance(deck, _Raw) else M.render(deck)
+        decks.append((text, opts, 'valid'))
     for _ in range(rng.randint(1, 2)):
         cls = rng.choice(c17.CLASSES)
         pair = c17.build_pair(_Sub(rng, cls, case.index, case.tier, case.seed))
